@@ -94,6 +94,10 @@ def repo_hash(extra=""):
 def ensure_facts(all_targets=False, log=print):
     """Extract facts from /repo's current working tree (or reuse an exact-hash cache entry).
     Returns (facts_dir, info dict)."""
+    pre = os.environ.get("VERIF_FACTS_DIR")
+    if pre:
+        # regression tooling only (tools/regress.py): facts of a scratch tree extracted earlier with the same driver
+        return pre, {"facts_key": os.path.basename(pre.rstrip("/")), "cached": True}
     os.makedirs(CACHE, exist_ok=True)
     if not os.path.exists(DRIVER):
         log("[extract] driver missing, building")
@@ -212,6 +216,9 @@ def load_known():
     return out
 
 
+_PROGRAMS = {}
+
+
 class Reporter:
     def __init__(self, prop, tier):
         self.prop = prop
@@ -267,7 +274,9 @@ def run_property(prop, rules, level, explanation, assumptions, tier, all_targets
     P = None
     if need_facts:
         facts_dir, info = ensure_facts(all_targets=all_targets)
-        P = Program(facts_dir)
+        P = _PROGRAMS.get(facts_dir)
+        if P is None:
+            P = _PROGRAMS[facts_dir] = Program(facts_dir)
         R.count("crates", len(P.crates))
         R.count("functions", len(P.fns))
         R.count("mir_bodies", len(P.mir))
